@@ -18,6 +18,7 @@ import (
 	eth2v1 "github.com/attestantio/go-eth2-client/api/v1"
 	"github.com/attestantio/go-eth2-client/spec/bellatrix"
 	eth2p0 "github.com/attestantio/go-eth2-client/spec/phase0"
+	k1 "github.com/decred/dcrd/dcrec/secp256k1/v4"
 
 	"github.com/obolnetwork/charon/cluster"
 	"github.com/obolnetwork/charon/cmd/combine"
@@ -70,6 +71,60 @@ type MutateReport struct {
 	RoundTrips  int                `json:"round_trips"`
 	RoundTripNG []string           `json:"round_trip_failures"`
 	Baselines   []string           `json:"baseline_failures"`
+}
+
+// respelling reports whether an alteration that left the decoded object unchanged also left the JSON
+// value unchanged up to spelling.
+func respelling(alt, orig, now string) bool {
+	emptyLike := func(v string) bool {
+		switch v {
+		case "<absent>", "null", `""`, `"0x"`, "[]":
+			return true
+		}
+		return false
+	}
+	var zeroTree func(v any) bool
+	zeroTree = func(v any) bool {
+		switch x := v.(type) {
+		case nil:
+			return true
+		case string:
+			return x == "" || x == "0x" || x == "0"
+		case bool:
+			return !x
+		case json.Number:
+			return x == "0"
+		case []any:
+			for _, e := range x {
+				if !zeroTree(e) {
+					return false
+				}
+			}
+			return true
+		case map[string]any:
+			for _, e := range x {
+				if !zeroTree(e) {
+					return false
+				}
+			}
+			return true
+		}
+		return false
+	}
+	zeroLike := func(v string) bool {
+		if v == "<absent>" {
+			return true
+		}
+		t, err := decodeTree([]byte(v))
+		return err == nil && zeroTree(t)
+	}
+	switch {
+	case strings.HasPrefix(alt, "spell."):
+		return true
+	case alt == "delete":
+		return zeroLike(orig)
+	}
+	return emptyLike(orig) && emptyLike(now)
 }
 
 // lengthAltering: alterations that change the length of a byte field or of a list.
@@ -263,8 +318,21 @@ func (c *campaign) run(src Source, doc []byte, isLock, withSigs bool) {
 		}
 		s := Survivor{Source: src, Mutation: m, Orig: leafString(doc, m.Path), New: leafString(mut, m.Path)}
 		if c2 := canonical(mut, isLock); c2 != nil && sameDecoded(c2, canon) {
-			s.Class = "value-preserving"
-			c.rep.Allowed["value-preserving: the mutated file decodes to the same object (hex letter case / missing 0x of byte fields, null vs empty)"]++
+			// The file decodes to the original object. That is a mere re-spelling only if the JSON VALUE was not
+			// changed (hex letter case / 0x prefix, an empty value written another way, a zero-valued key left
+			// out); a changed value that the decoder does not see means the leaf is ignored on load: the file
+			// loads, verifies and has the original hashes although a leaf was altered.
+			if respelling(m.Alt, s.Orig, s.New) {
+				s.Class = "value-preserving"
+				c.rep.Allowed["value-preserving: the mutated file decodes to the same object (hex letter case / missing 0x of byte fields, null vs empty, zero-valued key omitted)"]++
+				return
+			}
+			s.Class, s.Key = "violation", "altered-leaf-ignored-on-load:"+src.Version+":"+pat
+			if !withSigs {
+				c.pending = append(c.pending, s)
+				return
+			}
+			c.rep.Survivors = append(c.rep.Survivors, s)
 			return
 		}
 		if why := allowedException(src, m); why != "" {
@@ -486,6 +554,53 @@ func TestMutate(t *testing.T) {
 				t.Fatal(err)
 			}
 			c.run(Source{Kind: "cli-lock", Version: Versions[len(Versions)-1], Shape: &sh}, b, true, true)
+		}
+	}
+	// decode/encode stability with SEVERAL partial deposits per validator in non-sorted amount order, every version
+	for i, v := range Versions {
+		if overBudget("the mutation campaign") {
+			break
+		}
+		sp := FreshSpec{Version: v, DV: 2, K: 2, N: 3, Seed: int(hx.Seed())*10 + i, Network: "sepolia", Amounts: []int{8, 24}}
+		var lock cluster.Lock
+		var keys []*k1.PrivateKey
+		var shares [][]tbls.PrivateKey
+		if fin, p := withTimeout(30*time.Second, fmt.Sprintf("building the fresh lock %+v", sp), func() { lock, keys, shares = freshLock(t, sp) }); !fin || p != nil {
+			continue
+		}
+		for j := range lock.Validators {
+			var dds []cluster.DepositData
+			for k, eth := range []int{8, 32, 1, 16} {
+				wc := make([]byte, 32)
+				wc[0] = 1
+				wc[31] = byte(j + 1)
+				sig := make([]byte, 96)
+				for x := range sig {
+					sig[x] = byte(7*x + k + 11*j + 1)
+				}
+				dds = append(dds, cluster.DepositData{PubKey: lock.Validators[j].PubKey, WithdrawalCredentials: wc, Amount: eth * deposit.OneEthInGwei, Signature: sig})
+			}
+			lock.Validators[j].PartialDepositData = dds
+		}
+		lock = resign(t, lock, keys, shares)
+		c.rep.RoundTrips++
+		b, err := json.Marshal(lock)
+		if err != nil {
+			c.rep.RoundTripNG = append(c.rep.RoundTripNG, fmt.Sprintf("multi-deposit %s: lock with deposits [8,32,1,16] ETH per validator does not encode: %v", v, err))
+			continue
+		}
+		var back cluster.Lock
+		switch err := json.Unmarshal(b, &back); {
+		case err != nil:
+			c.rep.RoundTripNG = append(c.rep.RoundTripNG, fmt.Sprintf("multi-deposit %s: the encoded lock (deposits [8,32,1,16] ETH per validator) does not decode: %v", v, shortErr(err)))
+		case back.VerifyHashes() != nil:
+			c.rep.RoundTripNG = append(c.rep.RoundTripNG, fmt.Sprintf("multi-deposit %s: the encoded lock (deposits [8,32,1,16] ETH per validator, hashed and signed in memory) fails VerifyHashes after decoding: %v", v, shortErr(back.VerifyHashes())))
+		case !bytes.Equal(back.LockHash, lock.LockHash):
+			c.rep.RoundTripNG = append(c.rep.RoundTripNG, fmt.Sprintf("multi-deposit %s: lock_hash changed by encode/decode: %x -> %x", v, lock.LockHash, back.LockHash))
+		case back.VerifySignatures(nil) != nil:
+			c.rep.RoundTripNG = append(c.rep.RoundTripNG, fmt.Sprintf("multi-deposit %s: the encoded lock fails VerifySignatures after decoding: %v", v, shortErr(back.VerifySignatures(nil))))
+		default:
+			c.roundTrip(Source{Kind: "fresh-lock-multi-deposit", Version: v, Spec: &sp}, b, true)
 		}
 	}
 	// adversarial two-field template (formats with a single address pair: up to v1.4)
@@ -1277,6 +1392,11 @@ func shapes(thorough bool, rnd func(int) int) []Shape {
 		// a definition signed by operators and creator (the command accepts it)
 		Shape{DefFile: true, Signed: true, DefVersion: "v1.11.0", Nodes: 4, Threshold: 3, Validators: 2, Network: "hoodi", Amounts: []int{8, 24}, MultiAddr: true},
 	)
+	// a definition file of EVERY supported version with the default deposits (1 ETH and 32 ETH: several
+	// partial deposits also for the formats that store one or none)
+	for i, v := range Versions {
+		quick = append(quick, Shape{DefFile: true, DefVersion: v, Nodes: 3, Threshold: 2, Validators: 1 + i%2, Network: []string{"hoodi", "sepolia", "goerli", "chiado"}[i%4], MultiAddr: i%2 == 1 && i >= 5})
+	}
 	if !thorough {
 		return quick
 	}
